@@ -561,6 +561,10 @@ from .c03 import r2_header_once as _header_once      # the BAM header is replaye
 from ..through_time import make_rule as _mk_tt
 _through_time = _mk_tt("C16")
 
+def _chunk_carry_over(ctx):
+    from .c01 import r2_carry_over
+    r2_carry_over(ctx)         # BAM is read through the same chunk reader in prepend (gzip) mode
+
 RULES = [
     ("C16-R1", r1_layout),
     ("C16-R2", r2_code_tables),
@@ -572,4 +576,5 @@ RULES = [
     ("C16-R8", r8_raw_chunk_untouched),
     ("C16-R9", _header_once),
     ("C16-T1", _through_time),
+    ("C16-R10", _chunk_carry_over),
 ]
